@@ -3,6 +3,7 @@ package main
 import (
 	"fmt"
 	"os"
+	"os/exec"
 	"regexp"
 	"sort"
 	"strings"
@@ -66,6 +67,10 @@ func raceCanary() {
 	wg.Wait()
 }
 
+// raceSetup finds the race log and proves that detector and log are live: the binary re-executes itself as a
+// child that does nothing but provoke one harness-harness race (raceCanary) and exit; the child's own log file
+// must contain that report. (The canary cannot run in this process: a process that reported any race exits with
+// the race detector's status 66 instead of 0.)
 func raceSetup(run *ev.Run) {
 	if raceEnabled {
 		run.Observed("race:detector-enabled")
@@ -75,7 +80,25 @@ func raceSetup(run *ev.Run) {
 	}
 	run.Extra("race_log", raceLogFile())
 	markRace(-1)
-	raceCanary()
+	if raceLogPath == "" || !raceEnabled {
+		return
+	}
+	cmd := exec.Command(os.Args[0])
+	cmd.Env = append(os.Environ(), "C20_CANARY=1")
+	err := cmd.Run()
+	if cmd.Process == nil {
+		run.HarnessBug("cannot start the race canary: " + fmt.Sprint(err))
+		return
+	}
+	f := fmt.Sprintf("%s.%d", raceLogPath, cmd.Process.Pid)
+	b, _ := os.ReadFile(f)
+	_ = os.Remove(f)
+	if strings.Contains(string(b), "WARNING: DATA RACE") && strings.Contains(string(b), "main.raceCanary") {
+		run.Observed("race:canary-reported")
+		run.Count("race_reports", "canary(child process)")
+	} else {
+		run.HarnessBug(fmt.Sprintf("race canary child left no report in %s (exit: %v)", f, err))
+	}
 }
 
 var accessFrame = regexp.MustCompile(`(?m)^  (.+)\(.*\)\n\s+(\S+\.go):(\d+)`)
@@ -160,7 +183,7 @@ func raceCollect(run *ev.Run, replay bool) {
 		return
 	}
 	b, err := os.ReadFile(f)
-	if err != nil {
+	if err != nil && !os.IsNotExist(err) { // the file is created with the first report (the canary child proved the path works)
 		run.HarnessBug("race log unreadable: " + err.Error())
 		return
 	}
@@ -190,11 +213,6 @@ func raceCollect(run *ev.Run, replay bool) {
 	found := map[string]*raceFinding{}
 	var order []string
 	for i, rr := range reports {
-		if strings.Contains(rr.Text, "main.raceCanary") {
-			run.Observed("race:canary-reported")
-			run.Count("race_reports", "canary")
-			continue
-		}
 		paras := strings.Split(strings.TrimSpace(strings.TrimPrefix(rr.Text, "WARNING: DATA RACE")), "\n\n")
 		var owners, fns []string
 		for k := 0; k < 2 && k < len(paras); k++ {
